@@ -60,6 +60,11 @@ CLAIMED = {
         note="Termination of the name de-duplication loop (hence name uniqueness over whole runs) and the survivor-position arithmetic of add_tie are not proved in general (exact correspondence on all subsets of up to 5 candidates + implementation search instead); aliasing ('no shared mutable state') is search-only; a Model over a RigidCluster is a known finding.",
         technique="Lean 4 theorems by mutual structural recursion over nested inductives + exact symbolic correspondence + implementation search incl. bounded-exhaustive ties",
         ref="DESIGN.md §5 C11"),
+    "C12": dict(
+        text="Proof (Lean 4, reals): log-posterior = log-prior + log-likelihood whenever the log-prior is finite, with exactly one forward evaluation; log-prior -inf (value outside a prior's support, invalid scatterer, violated constraint) gives log-posterior -inf with ZERO forward evaluations; the log-prior is -inf as soon as one parameter's log-density is, and otherwise the sum of the log-densities; the log-likelihood with scalar noise is the sum over pixels of the code's Gaussian log-density gaussLn(f_i, sd, d_i) (proved in C14 to be the log of the normalised density), and per-pixel noise at a constant level reduces to it; the noise-precedence table (model's if given, else the data's; None -> 1 only if every prior is Uniform). Tied by correspondence through real Model objects with a counting forward function: _lnlike, _lnprior, _find_noise, _lnposterior (value and number of forward calls).",
+        note="Forward hologram == public calc_holo for the substituted scatterer/theory/optics (incl. scaling and pixel subsets) is search-only (substitution itself is C11); per-channel noise with unequal pixel counts is outside the Gaussian-normaliser theorem; label-free per-channel noise lists given to the model are a known finding.",
+        technique="Lean 4 theorems (list induction, log algebra) + differential correspondence with counting calc_func + search against scipy.stats.norm.logpdf",
+        ref="DESIGN.md §5 C12"),
 }
 
 NOT_YET = {}
